@@ -5,6 +5,7 @@ import Dino.Implicit
 import DinoProofs.Lemmas.Interp
 import DinoProofs.Lemmas.Lin
 import Dino.Dynamics
+import Dino.Grid
 import Mathlib.Algebra.Ring.Basic
 import Mathlib.Algebra.Module.Basic
 import Mathlib.Algebra.Field.Basic
@@ -817,4 +818,85 @@ theorem IsProj.gPart (ds al : List K) (G : List (Dual K)) :
     | cons b u => simp only [List.zipWith_cons_cons, List.map_cons, hφ.smul, ih, smul_eq_mul]
 
 end column
+end Dino.AD
+
+/-! ## spectral operators that multiply by a static table (`Dino.Grid`) -/
+namespace Dino.AD
+open Dino Dual Dino.Grid
+
+section grid
+variable {K : Type} [Field K] {φ : Dual K → K} (hφ : IsProj φ)
+include hφ
+
+theorem IsProj.zipMul_constR (X : List (Dual K)) (c : List K) :
+    (List.zipWith (· * ·) X (constL c)).map φ = List.zipWith (· * ·) (X.map φ) c := by
+  induction X generalizing c with
+  | nil => simp
+  | cons x u ih =>
+    cases c with
+    | nil => simp [constL]
+    | cons a t =>
+      have := ih t
+      simp only [constL] at this ⊢
+      simp [hφ.mul_const, this]
+
+/-- multiplication by a static table along the total-wavenumber axis (`laplacian`,
+ `inverse_laplacian`, `clip_wavenumbers` are of this form) -/
+theorem IsProj.mulCols_const (X : List (List (Dual K))) (v : List K) :
+    (mulCols X (constL v)).map (List.map φ) = mulCols (X.map (List.map φ)) v := by
+  unfold mulCols
+  simp only [List.map_map, Function.comp_def]
+  apply List.map_congr_left
+  intro row _
+  exact hφ.zipMul_constR row v
+
+omit hφ in
+theorem eigenvalues_const (ly : Layout) (r : K) :
+    eigenvalues ly (Dual.const r) = constL (eigenvalues ly r) := by
+  unfold eigenvalues constL
+  simp only [List.map_map, Function.comp_def]
+  apply List.map_congr_left
+  intro l _
+  have h1 : ((l : ℕ) : Dual K) = Dual.const (l : K) := rfl
+  have h2 : (((l + 1 : ℕ)) : Dual K) = Dual.const ((l + 1 : ℕ) : K) := rfl
+  rw [h1, h2, Dual.const_mul, Dual.const_mul, const_neg, const_div]
+
+omit hφ in
+theorem inverseEigenvalues_const (ly : Layout) (r : K) :
+    inverseEigenvalues ly (Dual.const r) = constL (inverseEigenvalues ly r) := by
+  unfold inverseEigenvalues constL
+  simp only [List.map_map, Function.comp_def]
+  apply List.map_congr_left
+  intro j _
+  by_cases h : j = 0 ∨ ly.L ≤ j
+  · simp only [h, if_true]; rfl
+  · simp only [h, if_false]
+    rw [eigenvalues_const, constL_getD, ← const_one, const_div]
+
+omit hφ in
+theorem clipMask_const (ly : Layout) (n : Nat) :
+    (clipMask ly n : List (Dual K)) = constL (clipMask ly n) := by
+  unfold clipMask constL
+  simp only [List.map_map, Function.comp_def]
+  apply List.map_congr_left
+  intro j _
+  split <;> rfl
+
+theorem IsProj.laplacian_const (ly : Layout) (r : K) (X : List (List (Dual K))) :
+    (laplacian ly (Dual.const r) X).map (List.map φ) = laplacian ly r (X.map (List.map φ)) := by
+  unfold laplacian
+  rw [eigenvalues_const, hφ.mulCols_const]
+
+theorem IsProj.inverseLaplacian_const (ly : Layout) (r : K) (X : List (List (Dual K))) :
+    (inverseLaplacian ly (Dual.const r) X).map (List.map φ)
+      = inverseLaplacian ly r (X.map (List.map φ)) := by
+  unfold inverseLaplacian
+  rw [inverseEigenvalues_const, hφ.mulCols_const]
+
+theorem IsProj.clip_const (ly : Layout) (n : Nat) (X : List (List (Dual K))) :
+    (clip ly n X).map (List.map φ) = clip ly n (X.map (List.map φ)) := by
+  unfold clip
+  rw [clipMask_const, hφ.mulCols_const]
+
+end grid
 end Dino.AD
